@@ -174,6 +174,8 @@ def step (st : St) (tok : Str) : Option St :=
     some { st with w := { st.w with opts := { st.w.opts with defaultBackend := some (splitKey t) } } }
   else if tok = "opt~xns=1".toList then
     some { st with w := { st.w with opts := { st.w.opts with crossNsSecret := true } } }
+  -- every address of an Endpoints object in a subset of its own (same ports): the model reads all subsets
+  else if tok = "opt~subsets=1".toList then some st
   else if tok = "sync".toList then some st
   else none
 
